@@ -52,6 +52,11 @@ impl<T> VIter<T> {
         requires forall|a: T, b: T| #[trigger] f.requires((a, b)),
         ensures (r is None) == (self.seq().len() == 0), r is Some ==> vi_reduce_rel(f, self.seq(), r->Some_0),
     { self.items.into_iter().reduce(f) }
+    /// `a.chain(b)`: the elements of a, then those of b
+    #[verifier::external_body]
+    pub fn chain(self, other: Vec<T>) -> (r: VIter<T>)
+        ensures r.seq() == self.seq() + other@,
+    { let mut items = self.items; items.extend(other); VIter { items } }
     /// `collect()` into a vector
     pub fn collect<B: VFromIter<T>>(self) -> (r: B)
         ensures r.vcollected() == self.seq(),
